@@ -86,13 +86,34 @@ func checkQueryPayloads(c *core.Ctx, stage, what string, payloads map[string][]b
 	}
 }
 
+// alignStatement moves q into the `plan-already-aligned` region: absolute bounds aligned to one
+// hour (a multiple of every configured storage interval), an explicit group-by interval of k hours
+// (a multiple of the storage interval, not below the interval CalcQueryInterval would pick for a
+// range under a month), nothing planned yet. calcTimeRangeAndInterval then leaves TimeRange and
+// Interval as they are and only fills StorageInterval / IntervalRatio.
+func alignStatement(r *rand.Rand, q *stmt.Query, k int64) {
+	const hour = 3600000
+	start := (1546300800000/hour + r.Int63n(30000)) * hour
+	q.TimeRange = timeutil.TimeRange{Start: start, End: start + (1+r.Int63n(600))*hour}
+	q.Interval = timeutil.Interval(k * hour)
+	q.AutoGroupByTime = false
+	q.StorageInterval = 0
+	q.IntervalRatio = 0
+}
+
 // planStages runs the real plan stages on q (a parse result or a directly built statement).
-// Returns false if calcTimeRangeAndInterval cannot handle the statement (not C17's business).
-func planStages(c *core.Ctx, r *rand.Rand, q *stmt.Query, what string) {
+// aligned > 0 first moves the statement into the plan-already-aligned region with k = aligned.
+func planStages(c *core.Ctx, r *rand.Rand, q *stmt.Query, what string, aligned int64) {
 	cfg := randCfg(r)
 	node := models.StatelessNode{HostIP: "1.1.1.1", GRPCPort: 9000}
+	base := *q
+	if aligned > 0 {
+		c.Branch("plan-already-aligned")
+		alignStatement(r, &base, aligned)
+		what = fmt.Sprintf("(aligned, interval %dh) %s", aligned, what)
+	}
 	// root
-	root := *q
+	root := base
 	st := &stubState{cfg: cfg, targets: 1 + r.Intn(3)}
 	rctx := querycontext.NewRootMetricContext(&querycontext.RootMetricContextDeps{
 		Ctx: context.Background(), Request: &models.Request{RequestID: "r1"}, Database: "db",
@@ -104,14 +125,37 @@ func planStages(c *core.Ctx, r *rand.Rand, q *stmt.Query, what string) {
 		return
 	}
 	c.Branch("plan-stage-root")
+	if aligned > 0 && (root.TimeRange != base.TimeRange || root.Interval != base.Interval) {
+		c.Branch("plan-aligned-region-moved") // the planner did change range/interval: region not hit
+	}
 	checkQueryPayloads(c, "RootMetricContext.MakePlan", what, rctx.VerifRequestPayloads(), rctx.Deps.Statement)
 	// the op line: the statement the root holds after planning goes through the model as well
 	queryOps(c, rctx.Deps.Statement, "", "held by the root after MakePlan: "+what)
 
-	// intermediate: plans the statement it received from the root
-	mid := *q
+	// intermediate (root -> broker path): it receives a task request whose payload is the upstream
+	// statement — either as the root sent it after its own planning or un-planned — decodes it
+	// (intermediate_processor.processDataSearch) and plans the decoded statement against the
+	// database config of its own cluster.
+	var received []byte
+	if r.Intn(2) == 0 {
+		received, _ = base.MarshalJSON()
+		c.Branch("intermediate-receives-unplanned")
+	} else {
+		for _, p := range payloadsSorted(rctx.VerifRequestPayloads()) {
+			received = p
+			break
+		}
+		if r.Intn(2) == 0 {
+			st = &stubState{cfg: randCfg(r), targets: 1 + r.Intn(3)} // another cluster's config
+		}
+		c.Branch("intermediate-receives-root-planned")
+	}
+	var mid stmt.Query
+	if err := mid.UnmarshalJSON(received); err != nil {
+		return // statements that do not survive the wire are reported by queryOps
+	}
 	ictx := querycontext.NewIntermediateMetricContext(context.Background(), nil, st,
-		&protoCommonV1.TaskRequest{RequestID: "r1"}, node,
+		&protoCommonV1.TaskRequest{RequestID: "r1", Payload: received}, node,
 		&models.PhysicalPlan{Database: "db"}, &mid, []string{"1.1.1.1:9000"})
 	if quiet(func() { err = ictx.MakePlan() }) && err == nil {
 		c.Branch("plan-stage-intermediate")
